@@ -82,6 +82,27 @@ Theorem C07_collect_first_error :
 Proof. exact load_with_agrees. Qed.
 Print Assumptions C07_collect_first_error.
 
+(* ---- the three statements of the design, over rules, correlation rules and filters at once ---- *)
+(* FULL: forall L k c d, sigma_only (load L k c d).  Proved for documents in dom k (a map; detection items in
+   the modelled fragment for rules and filters; string rule references for correlation rules). *)
+Theorem C07_sigma_only_partial : forall L k c d, dom k d = true -> sigma_only (load L k c d).
+Proof. exact sigma_only_all. Qed.
+Print Assumptions C07_sigma_only_partial.
+
+(* FULL: forall L k d, exists errs, load L k true d = Ok errs.  Proved for rules and filters on dom k;
+   refuted for correlation rules (C07_corr_collect_total_refuted). *)
+Theorem C07_collect_total_partial :
+  forall L k d, k <> KCorr -> dom k d = true -> exists errs, load L k true d = Ok errs.
+Proof. exact collect_total_all. Qed.
+Print Assumptions C07_collect_total_partial.
+
+(* full strength, no premise: whenever collecting mode returns, its error list is empty exactly when
+   strict loading succeeds, and its first error is exactly what strict loading raises *)
+Theorem C07_collect_iff :
+  forall L k d errs, load L k true d = Ok errs -> collect_iff (load L k false d) errs.
+Proof. exact collect_iff_all. Qed.
+Print Assumptions C07_collect_iff.
+
 (* non-vacuity: a rule with modifier chains lies in the domain and loads without errors; the
    correlation witness of the refutation lies in corr_dom *)
 Example C07_premises_inhabited :
